@@ -56,6 +56,10 @@ type streamSpec struct {
 	Sizes []int  `json:"sizes"` // approximate payload bytes per message, in sending order
 	Head  int    `json:"head"`  // approximate bytes of the leading metadata / field-list message
 	Seed  uint64 `json:"seed"`  // content seed
+	// Fail = "final": the follower's query fails after FailAfter rows; ProcessRemoteQuery then
+	// puts the error text on the FINAL message, together with EndOfResults (remote kinds only)
+	Fail      string `json:"fail,omitempty"`
+	FailAfter int    `json:"fail_after,omitempty"`
 }
 
 const corpusBase = uint64(1) << 41
@@ -551,6 +555,14 @@ func (env *streamEnv) run(sp *streamSpec, key string) (out streamOutcome) {
 				rows[i] = buildFlatRow(sp, i)
 			}
 		}
+		// a follower whose query fails part-way (deadline, out of memory, a panic turned into
+		// an error): it reports the error on its last message
+		failing := sp.Fail == "final"
+		failAfter := sp.FailAfter
+		if failAfter < 0 || failAfter > n {
+			failAfter = n
+		}
+		followerErr := fmt.Errorf("follower query failed: zvh-%x after %d rows", sp.Seed&0xffffff, failAfter)
 		// follower side: answers the query it is sent
 		var gotQuery rpc.Query
 		follower := func(fctx context.Context, sqlString string, isSubQuery bool, subQueryResults [][]interface{}, uf bool,
@@ -561,6 +573,9 @@ func (env *streamEnv) run(sp *streamSpec, key string) (out streamOutcome) {
 				return nil, err
 			}
 			for i := 0; i < n; i++ {
+				if failing && i == failAfter {
+					return stats, followerErr
+				}
 				var err error
 				if uf {
 					_, err = onRow(series[i].key, series[i].vals)
@@ -570,6 +585,9 @@ func (env *streamEnv) run(sp *streamSpec, key string) (out streamOutcome) {
 				if err != nil {
 					return stats, err
 				}
+			}
+			if failing {
+				return stats, followerErr
 			}
 			return stats, nil
 		}
@@ -607,15 +625,18 @@ func (env *streamEnv) run(sp *streamSpec, key string) (out streamOutcome) {
 		wg.Wait()
 		sent := make([]string, n)
 		var got []string
+		if failing {
+			sent = sent[:failAfter]
+		}
 		if unflat {
-			for i := range series {
+			for i := range sent {
 				sent[i] = canonSeries(series[i])
 			}
 			for _, g := range gotSeries {
 				got = append(got, canonSeries(g))
 			}
 		} else {
-			for i := range rows {
+			for i := range sent {
 				sent[i] = canonRow(rows[i])
 			}
 			for _, g := range gotRows {
@@ -655,6 +676,18 @@ func (env *streamEnv) run(sp *streamSpec, key string) (out streamOutcome) {
 		if out.diff != "" {
 			if herr != nil {
 				out.diff += " (leader side ended with: " + printable(herr.Error()) + ")"
+			}
+			return
+		}
+		if failing {
+			// an error sent by the follower is an error seen by the leader: the handler that
+			// HandleRemoteQueries registered must return it to queryCluster (which then counts
+			// the partition as missing instead of successful)
+			switch {
+			case herr == nil:
+				out.diff = fmt.Sprintf("the follower's query failed after %d of %d rows and it reported %q on its final message (Error together with EndOfResults, as ProcessRemoteQuery sends it); the leader's handler returned NO error: the partition counts as successful and its %d rows as the complete answer", failAfter, n, followerErr.Error(), len(got))
+			case !strings.Contains(herr.Error(), followerErr.Error()):
+				out.diff = fmt.Sprintf("the follower reported %q, the leader's handler returned another error: %s", followerErr.Error(), printable(herr.Error()))
 			}
 			return
 		}
@@ -818,6 +851,10 @@ func genStreamSpec(seed, idx uint64) *streamSpec {
 		} else {
 			sp.Head = r.Range(50, 400)
 		}
+		if (sp.Kind == "remote-flat" || sp.Kind == "remote-unflat") && r.Chance(1, 3) {
+			sp.Fail = "final"
+			sp.FailAfter = hk.Pick(r, []int{0, 1, len(sp.Sizes) / 2, len(sp.Sizes)})
+		}
 		return sp
 	case 0: // equal-size large messages back to back: a mix-up decodes without error
 		b := big()
@@ -850,6 +887,10 @@ func genStreamSpec(seed, idx uint64) *streamSpec {
 			sp.Sizes = sp.Sizes[:i]
 			break
 		}
+	}
+	if (sp.Kind == "remote-flat" || sp.Kind == "remote-unflat") && r.Chance(1, 3) {
+		sp.Fail = "final"
+		sp.FailAfter = hk.Pick(r, []int{0, 1, len(sp.Sizes) / 2, len(sp.Sizes) - 1, len(sp.Sizes)})
 	}
 	if r.Chance(1, 3) {
 		sp.Head = r.Range(20000, 60000) // a large first message (field list / metadata / follow request)
@@ -914,6 +955,9 @@ func (sr *streamRunner) one(sp *streamSpec, idx uint64) {
 	}
 	if sp.Head >= 16384 {
 		ctx.Res.Hit("stream-head:large")
+	}
+	if sp.Fail != "" {
+		ctx.Res.Hit("stream-fail:" + sp.Kind + "/error-on-final-message")
 	}
 	var out streamOutcome
 	for attempt := 0; attempt < 2; attempt++ {
